@@ -207,6 +207,24 @@ pub fn eval_mode(rig: &KeeperRig, case: &Case, stats: &mut Stats, pairing_only: 
     rig.host.with(|s| s.doc = Some(case.first.to_json()));
     let agent = rig.start_agent(None);
     let timeout = Duration::from_secs(20);
+    // C10's engine: the agent's own WireServer client keeps making signed requests during the WHOLE history (a wrong
+    // (id, secret) pair may live for one poll interval only), each verified by the host under the announced id
+    let stop_prober = std::sync::Arc::new(std::sync::atomic::AtomicBool::new(false));
+    let prober = if pairing_only {
+        let ks = agent.shared.get_key_keeper_shared_state();
+        let stop = stop_prober.clone();
+        Some(rig.rt.spawn(async move {
+            let mut n = 0u64;
+            while !stop.load(std::sync::atomic::Ordering::Relaxed) {
+                let _ = azure_proxy_agent::host_clients::wire_server_client::WireServerClient::new("168.63.129.16", 80, ks.clone()).get_goalstate().await;
+                n += 1;
+                tokio::time::sleep(Duration::from_micros(300)).await;
+            }
+            n
+        }))
+    } else {
+        None
+    };
     let result = (|| -> Result<(), (String, String)> {
         rig.run_step(Step { keep_doc: true, ..Default::default() }, 2, timeout).map_err(|e| ("inconclusive".to_string(), e))?;
         let mut trace = verif_hooks::take_policy_trace();
@@ -282,13 +300,25 @@ pub fn eval_mode(rig: &KeeperRig, case: &Case, stats: &mut Stats, pairing_only: 
         if rule_change && flip && recovered {
             stats.nontrivial_hash(h64(case));
         }
-        // every signed request the host saw verified under the key registered for its id (C04 own calls, C10)
-        let fails = rig.host.with(|s| s.signature_failures.clone());
-        if let Some((sig, d)) = fails.first() {
-            return Err((sig.clone(), d.clone()));
-        }
         Ok(())
     })();
+    stop_prober.store(true, std::sync::atomic::Ordering::Relaxed);
+    if let Some(h) = prober {
+        if let Ok(n) = rig.rt.block_on(h) {
+            stats.class_n("probe:signed-requests-made-while-the-history-ran", n);
+        }
+    }
+    // every signed request the host saw verified under the key registered for its id (C04 own calls, C10)
+    let result = result.and_then(|_| {
+        let fails = rig.host.with(|s| s.signature_failures.clone());
+        match fails.first() {
+            Some((sig, d)) => {
+                let sig = if sig.starts_with("signing:mac-does-not-verify") || sig.starts_with("signing:unknown-key-id") { "pairing:key-id-and-mac-belong-to-different-keys".to_string() } else { sig.clone() };
+                Err((sig, format!("host latched {:?}: {}", rig.host.with(|s| s.latched.clone()), d.chars().take(500).collect::<String>())))
+            }
+            None => Ok(()),
+        }
+    });
     rig.stop_agent(&agent);
     let _ = std::fs::remove_dir_all(&agent.key_dir);
     let _ = std::fs::remove_dir_all(&agent.log_dir);
